@@ -185,7 +185,14 @@ func modeUfsIO(tier string, args []string) {
 			emit("IO %d %d 0 - 0 ; FINAL - V 0", msize, b2i(dotu))
 			continue
 		}
-		f, err := s.clnt.FOpen(name, go9p.ORDWR)
+		// in every fifth case the file is opened through a symbolic link inside the tree (Lstat of
+		// the fid's path then describes the link, not the file the descriptor is open on)
+		openName := name
+		if c%5 == 2 && os.Symlink(name, path+".lnk") == nil {
+			openName = name + ".lnk"
+			stat("ufsio.opened_through_symlink", 1)
+		}
+		f, err := s.clnt.FOpen(openName, go9p.ORDWR)
 		f2, err2 := s.clnt.FOpen(name+".other", go9p.ORDWR)
 		if err != nil || err2 != nil {
 			emit("IO %d %d 0 - 0 ; FINAL - V 0", msize, b2i(dotu))
@@ -365,6 +372,7 @@ func modeUfsIO(tier string, args []string) {
 			b2i(string(oth) == "other file, must not change"), b2i(keepOK))
 		_ = os.Remove(path)
 		_ = os.Remove(other)
+		_ = os.Remove(path + ".lnk")
 		stat("ufsio.cases", 1)
 		stat("ufsio.ops", nops)
 	}
